@@ -297,7 +297,7 @@ func Concat(ss ...Sequence) Sequence {
 		return ss[0]
 	default:
 		head, tail := ss[0], ss[1:]
-		ff, p := head.Features(), head.Bytes()
+		ff, p := head.Features(), append([]byte(nil), head.Bytes()...)
 
 		for _, seq := range tail {
 			for _, f := range seq.Features() {
